@@ -215,11 +215,37 @@ fn run_case(out: &mut Out, case: usize, src: &str, a: &[Lay], t: &Tr) {
             with_layer.insert(k, lp);
             json!([observe(&bo, bx), observe(&build(&with_layer), bx), k])
         } else { Value::Null };
-        (observe(&ba, bx), observe(&bb, bx), gm, go)
+        // an empty alpha layer made the way a paste makes it (Layer::from_clipboard_data of a clipboard record whose cells are all
+        // invisible), inserted at a position that rotates with the case: document A must show exactly what it showed without it
+        let gp = {
+            let mut d = vec![0u8];
+            d.extend(((case % 5) as i32 - 2).to_le_bytes());
+            d.extend(((case % 3) as i32 - 1).to_le_bytes());
+            d.extend(5u32.to_le_bytes());
+            d.extend(4u32.to_le_bytes());
+            for _ in 0..20 {
+                d.extend(32u16.to_le_bytes());
+                d.extend(icy_engine::attribute::INVISIBLE.to_le_bytes());
+                d.extend(0u16.to_le_bytes());
+                d.extend(0u32.to_le_bytes());
+                d.extend(7u32.to_le_bytes());
+            }
+            match Layer::from_clipboard_data(&d) {
+                Some(l) => {
+                    let mut bp = build(a);
+                    let k = case % (bp.layers.len() + 1);
+                    bp.layers.insert(k, l);
+                    json!([observe(&bp, bx), k])
+                }
+                None => Value::Null,
+            }
+        };
+        (observe(&ba, bx), observe(&bb, bx), gm, go, gp)
     });
     match r {
-        Ok((ga, gb, gm, go)) => {
+        Ok((ga, gb, gm, go, gp)) => {
             let mut ev = json!({"ev":"law","case":case,"tr":tr_json(t),"A":stack_json(a),"B":stack_json(&b),"box":bx,"gA":ga,"gB":gb});
+            if !gp.is_null() { ev["gP"] = gp; }
             if !go.is_null() { ev["gO"] = go; }
             if !gm.is_null() { ev["gM"] = gm; ev["route"] = json!(route); ev["exp"] = json!(if route == 3 { "A" } else { "B" }); }
             out.ev(&ev)
